@@ -37,6 +37,10 @@ var treeMutatorsInUse = map[string]bool{
 	"(*etree.Document).ReadFrom": true, "(*etree.Document).ReadFromString": true, "(*etree.Element).CreateText": true,
 }
 
+// the node fields the pinned tree assigns directly (the Sign* functions splice the signature into the copy's child list and
+// the builders name their root); what is stored there is C13-R1 / C15's business, wherever the statement lives.
+var treeStoresInUse = map[string]bool{"store etree.Element.Child": true, "store etree.Element.Space": true, "store etree.Element.Tag": true}
+
 func isEtreeNodeType(t types.Type) bool {
 	ts := typeStr(t)
 	ts = strings.TrimPrefix(ts, "*")
@@ -203,7 +207,7 @@ func hygieneScan(c *Ctx) ([]hygieneFinding, int) {
 					}
 					hygieneSites++
 					inv["store "+field]++
-					if freshTree(base, 0) || constructionOnly(x) {
+					if treeStoresInUse["store "+field] || freshTree(base, 0) || constructionOnly(x) {
 						continue
 					}
 					hygieneCache = append(hygieneCache, hygieneFinding{f, in.Pos(), "store to " + field + " of a tree the function did not make", "store " + field})
